@@ -1,9 +1,13 @@
-"""Registry: property id -> check function."""
-import json, os, glob
+"""Registry: property id -> check function.  Every bin/spec_*.py module registers its properties:
+    specs.REGISTRY["Cxx"] = function(work, args) -> exit code
+    specs.MANIFEST["Cxx"] = dict(category=, technique=, text=, note=, ref=)   (collected by gen_manifest.py)
+"""
+import json, os, glob, importlib
 import vlib
 from vlib import Infra, log
 
 REGISTRY = {}
+MANIFEST = {}
 
 
 def graph_property(work, args, *, pid, module, mcmodule, pkg, formulas, mc_cfgs, gen_cfgs, reset_op,
@@ -15,6 +19,9 @@ def graph_property(work, args, *, pid, module, mcmodule, pkg, formulas, mc_cfgs,
     mc_cfgs / gen_cfgs: lists of dict(name, consts, overrides, harness=…, shards, rej_sample, workers)
     """
     tier = work.tier
+    if getattr(args, "replay", None):
+        return replay_path(work, args.replay, pid=pid, module=module, pkg=pkg, formulas=formulas, reset_op=reset_op,
+                           extra_prop_invariants=extra_prop_invariants)
     ev = dict(states=0, transitions=0, traces_validated_against_impl=0, samples=[], mc_runs=[], gen_runs=[],
               replay=[], formulas=formulas["invariants"] + formulas["properties"])
     # ---- 1. model checking: the design satisfies the property's formulas (and only those are listed)
@@ -66,7 +73,7 @@ def graph_property(work, args, *, pid, module, mcmodule, pkg, formulas, mc_cfgs,
                         ev["samples"].append(smp)
             init = vlib.first_state(edges)
             for tf in traces:
-                all_traces.append((tf, init, c))
+                all_traces.append((tf, init, c, h))
             ev["gen_runs"].append(dict(cfg=c["name"], distinct=r["distinct"], generated=r["generated"]))
             # vacuity: every operation kind must have been accepted at least once on the real code
             names = set(x.split(" ")[0] for x in tot["by_op"])
@@ -79,15 +86,15 @@ def graph_property(work, args, *, pid, module, mcmodule, pkg, formulas, mc_cfgs,
     rec_info = None
     if recorder and tier in recorder["tiers"]:
         rec_info = recorder["run"](work, binary)
-        for tf, init, c in rec_info["traces"]:
-            all_traces.append((tf, init, c))
+        for tf, init, c, h in rec_info["traces"]:
+            all_traces.append((tf, init, c, h))
     # ---- 5. TLC evaluates the property's formulas on every recorded real behaviour
     violation = None
     n_traces = 0
     groups = {}
-    for tf, init, c in all_traces:
-        groups.setdefault(c["name"], (c, init, []))[2].append(tf)
-    for name, (c, init, tfs) in groups.items():
+    for tf, init, c, h in all_traces:
+        groups.setdefault(c["name"] + "-" + str(h.get("chain", "x")), (c, init, [], h))[2].append(tf)
+    for name, (c, init, tfs, h) in groups.items():
         nd = work.path("prop-%s.ndjson" % name)
         index, nlines = vlib.concat_traces(tfs, init, reset_op, nd)
         if not index:
@@ -106,7 +113,8 @@ def graph_property(work, args, *, pid, module, mcmodule, pkg, formulas, mc_cfgs,
             l = r["last_l"] or 1
             first, doc = vlib.trace_of_line(index, l - 1)
             steps = doc["trace"][: max(1, l - 1 - first)]
-            violation = dict(formula=r["violated"], cfg=name, harness=c["harness"][0], init=init, steps=steps, why=doc.get("why"))
+            violation = dict(formula=r["violated"], cfg=name, harness=h, init=init, steps=steps, why=doc.get("why"),
+                             consts=c.get("prop_consts", c["consts"]), overrides=c.get("overrides"))
             break
         if r["error"] or r["postcondition_failed"] or r["rc"] != 0:
             raise Infra("property evaluation on real traces failed (%s): %s\n%s" % (name, r["error"], r["tail"][-1500:]))
@@ -132,65 +140,38 @@ def graph_property(work, args, *, pid, module, mcmodule, pkg, formulas, mc_cfgs,
     return 0
 
 
-# =====================================================================================================
-# Attest.tla : C01, C02
-# =====================================================================================================
-ATTEST_RESET = dict(name="Reset", o="none", b="none", s="none", n=0, v="none", set=[], res="ok")
-
-ATTEST_FORMULAS = {
-    "C01": dict(invariants=["C01_OneObservedPerNonce", "C01_ObservedInOrder", "C01_NoDoubleVote", "C01_EffectsAtMostOnce",
-                            "C01_EffectsOnlyWhenObserved"],
-                properties=["C01_StepByOne", "C01_VoteContiguous", "C01_VotesOnlyByClaim", "C01_ObservedStable",
-                            "C01_EffectsOnlyByExecute"],
-                p_properties=["P_C01_StepByOne", "P_C01_VoteContiguous", "P_C01_VotesOnlyByClaim", "P_C01_ObservedStable",
-                              "P_C01_EffectsOnlyByExecute"]),
-    "C02": dict(invariants=["C02_TotalPowerCoversOnline", "C02_NoOracleTwiceInTally"],
-                properties=["C02_QuorumJustified", "C02_VoterIsOnlineBridgerAndSigner"],
-                p_properties=["P_C02_QuorumJustified", "P_C02_VoterIsOnlineBridgerAndSigner"]),
-}
 
 
-def attest_consts(oracles, bridgers, maxnonce, mops, bonds):
-    return dict(Oracle=oracles, Bridger=bridgers, Variant=["A", "B"], MaxNonce=maxnonce, MaxMops=mops, MaxBonds=bonds,
-                Forger=bridgers[-1])
+def replay_path(work, path, *, pid, module, pkg, formulas, reset_op, extra_prop_invariants=()):
+    """--replay: re-executes a saved violation path on the real code and lets TLC evaluate the formulas again."""
+    doc = json.load(open(path))
+    binary = vlib.build(work, pkg)
+    pf = work.path("path.json")
+    json.dump(dict(steps=doc["steps"]), open(pf, "w"))
+    tf = work.path("path-traces.ndjson")
+    p = vlib.run_harness(work, binary, "TestPath", dict(VERIF_PATH=pf, VERIF_TRACES=tf, VERIF_CONST=json.dumps(doc["harness"])), work.path("path.log"))
+    if p.wait() != 0:
+        raise Infra("replay harness failed:\n" + open(work.path("path.log")).read()[-3000:])
+    log(open(work.path("path.log")).read()[-3000:])
+    nd = work.path("path.ndjson")
+    index, n = vlib.concat_traces([tf], doc["init"], reset_op, nd)
+    consts = dict(doc["consts"])
+    consts["TraceFile"] = nd
+    cfg = work.path("path.cfg")
+    vlib.write_cfg(cfg, spec="PSpec", consts=consts, overrides=doc.get("overrides"),
+                   invariants=formulas["invariants"] + list(extra_prop_invariants), properties=formulas["p_properties"], postcondition="Consumed")
+    r = vlib.run_tlc(work, module + "Prop.tla", cfg, work.path("path.out"), workers=1)
+    if r["violated"]:
+        log("formula %s is false on the replayed real behaviour" % r["violated"])
+        print("VIOLATION property=%s replay=%s" % (pid, path), flush=True)
+        return 1
+    if r["error"] or r["postcondition_failed"] or r["rc"] != 0:
+        raise Infra("evaluation failed: %s\n%s" % (r["error"], r["tail"][-1500:]))
+    log("all formulas hold on the replayed real behaviour")
+    return 0
 
 
-def attest_harness(chain, oracles, bridgers, maxnonce, stake):
-    return dict(chain=chain, Oracle=oracles, Bridger=bridgers, Variant=["A", "B"], MaxNonce=maxnonce, Stake=stake)
-
-
-O2, O3, B3, B4 = ["o1", "o2"], ["o1", "o2", "o3"], ["b1", "b2", "b3"], ["b1", "b2", "b3", "b4"]
-STAKES = {"StakeEdge2": {"o1": 65, "o2": 35}, "StakeEdge3": {"o1": 34, "o2": 33, "o3": 33}, "StakeEq": {"o1": 1, "o2": 1, "o3": 1}}
-
-ATTEST_MC = [
-    dict(name="mc2", tiers=["quick", "thorough"], consts=attest_consts(O2, B3, 2, 2, 3), overrides={"Stake": "StakeEdge2"}),
-    dict(name="mc3", tiers=["thorough"], consts=attest_consts(O3, B4, 2, 2, 4), overrides={"Stake": "StakeEdge3"}, timeout=2400),
-]
-ATTEST_GEN = [
-    dict(name="gendev", tiers=["dev"], consts=attest_consts(O2, B3, 2, 1, 3), overrides={"Stake": "StakeEdge2"},
-         harness=[attest_harness("eth", O2, B3, 2, STAKES["StakeEdge2"])], shards=14, rej_sample=2),
-    dict(name="gen2", tiers=["quick"], consts=attest_consts(O2, B3, 2, 2, 3), overrides={"Stake": "StakeEdge2"},
-         harness=[attest_harness("eth", O2, B3, 2, STAKES["StakeEdge2"])], shards=14, rej_sample=2),
-    dict(name="gen2full", tiers=["thorough"], consts=attest_consts(O2, B3, 2, 2, 3), overrides={"Stake": "StakeEdge2"},
-         harness=[attest_harness("eth", O2, B3, 2, STAKES["StakeEdge2"]), attest_harness("tron", O2, B3, 2, STAKES["StakeEdge2"])],
-         shards=16, rej_sample=0),
-]
-
-
-def attest(pid):
-    def run(work, args):
-        return graph_property(
-            work, args, pid=pid, module="Attest", mcmodule="AttestMC", pkg="attest", formulas=ATTEST_FORMULAS[pid],
-            mc_cfgs=ATTEST_MC, gen_cfgs=ATTEST_GEN, reset_op=ATTEST_RESET,
-            level_note="", design_ref="5/C01-C02",
-            assumptions=[
-                "end-block slashing of an oracle is applied at keeper level (SlashOracle+SetLastTotalPower) in this spec; its cause is EndBlock.tla's subject",
-                "MsgEditBridger is driven through the message server directly (its ValidateBasic cannot pass on this tree)",
-                "claims are MsgSendToFxClaim deposits of the FX bridge token; other claim types are covered by Outgoing/ClaimIdentity specs",
-                "the abstraction function reads the crosschain store prefixes 0x12 0x13 0x14 0x17 0x23 0x24 0x38 0x39 0x54 raw",
-            ])
-    return run
-
-
-REGISTRY["C01"] = attest("C01")
-REGISTRY["C02"] = attest("C02")
+def load_all():
+    here = os.path.dirname(os.path.abspath(__file__))
+    for f in sorted(glob.glob(os.path.join(here, "spec_*.py"))):
+        importlib.import_module(os.path.basename(f)[:-3])
